@@ -56,6 +56,39 @@ theorem stepFn_sound {n : Nat} {s s' : State} {w : Nat} {a : Act}
     case h_15 c hpc => cases h; exact .exit hw hpc
     case h_16 => cases h
 
+/-- Conversely the driver's function can take every step of the relation. -/
+theorem stepFn_complete {n : Nat} {s s' : State} {w : Nat} (h : Step n s w s') :
+    ∃ a, stepFn n s w a = some s' := by
+  cases h
+  case popOk b m d hdq hw hpc => exact ⟨.go, by simp [stepFn, hw, hpc, hdq]⟩
+  case popEmpty b hdq hw hpc => exact ⟨.go, by simp [stepFn, hw, hpc, hdq]⟩
+  case stealOk v b vs keep rest m hv hne hdq hw hpc =>
+    refine ⟨.stealOk (rest.length + 1), ?_⟩
+    have hlen : (s.dq v).length - (rest.length + 1) = keep.length := by
+      rw [hdq]; simp
+    have hk : rest.length + 1 ≤ (s.dq v).length := by rw [hdq]; simp
+    simp only [stepFn, hw, hpc, if_true, hv, hlen, hk]
+    have hd : (s.dq v).drop keep.length = m :: rest := by rw [hdq]; simp
+    have ht : (s.dq v).take keep.length = keep := by rw [hdq]; simp
+    simp [hd, ht, hne]
+  case stealFail v b vs hw hpc => exact ⟨.stealFail, by simp [stepFn, hw, hpc]⟩
+  case stealDone b hw hpc => exact ⟨.go, by simp [stepFn, hw, hpc]⟩
+  case sleep hw hpc => exact ⟨.go, by simp [stepFn, hw, hpc]⟩
+  case activate m hw hpc => exact ⟨.go, by simp [stepFn, hw, hpc]⟩
+  case checkQuitNow v hq hw hpc => exact ⟨.go, by simp [stepFn, hw, hpc, hq]⟩
+  case checkWork t hq hw hpc => exact ⟨.go, by simp [stepFn, hw, hpc, hq]⟩
+  case checkQuit hq hw hpc => exact ⟨.go, by simp [stepFn, hw, hpc, hq]⟩
+  case checkNone hq hw hpc => exact ⟨.go, by simp [stepFn, hw, hpc, hq]⟩
+  case visitCont t hw hpc => exact ⟨.visitCont, by simp [stepFn, hw, hpc]⟩
+  case visitQuit t hw hpc => exact ⟨.visitQuit, by simp [stepFn, hw, hpc]⟩
+  case push k ks hw hpc => exact ⟨.go, by simp [stepFn, hw, hpc]⟩
+  case runDone hw hpc => exact ⟨.go, by simp [stepFn, hw, hpc]⟩
+  case setQuit hw hpc => exact ⟨.go, by simp [stepFn, hw, hpc]⟩
+  case deactZero hz hw hpc => exact ⟨.go, by simp [stepFn, hw, hpc, hz]⟩
+  case deactWait hz hw hpc => exact ⟨.go, by simp [stepFn, hw, hpc, hz]⟩
+  case sendQuit c hw hpc => exact ⟨.go, by simp [stepFn, hw, hpc]⟩
+  case exit c hw hpc => exact ⟨.go, by simp [stepFn, hw, hpc]⟩
+
 def demoRoots : List Tree := [.node 0 [.node 1 [], .node 2 [.node 3 []]]]
 
 def demoSched : List (Nat × Act) :=
